@@ -19,7 +19,9 @@ CLAUSES = (
     'builds its substitution regex only from escaped fragments; RHS family '
     'nodes set triggers and output optionality for every member; the member '
     'table given to the parser lists every task descendant of every family '
-    'but root in the full C3 linearisation. Not decided: '
+    'but root in the full C3 linearisation. '
+    'An RHS family node is expanded under nothing narrower than membership of the family table. '
+    'Not decided: '
     'the expanded expression text for arbitrary graph strings.')
 
 
